@@ -681,6 +681,19 @@ def main():
                         rec["replay_diverged"] = True
                 else:
                     rec["playback_output"] = pout
+            if o["replay"] == "scenario" and o.get("scenario"):
+                # native scenario on the real crate with the real dependencies (real threads / file watcher)
+                sc = os.path.join(VERIF, "scenarios", o["scenario"])
+                os.makedirs(os.path.join(am, "tests"), exist_ok=True)
+                shutil.copy(sc, os.path.join(am, "tests", os.path.basename(sc)))
+                cmd = ["cargo", "test", "--offline"] + (["--features", o["features"]] if o["features"] else []) + ["--test", os.path.basename(sc)[:-3]]
+                rc, out, dt, to = run_cmd(cmd, am, 900, dict(ENV, CARGO_TARGET_DIR=tdir_base + "-native"))
+                ran = "running " in out
+                rec["native"] = {"ran": ran, "reproduced": bool(ran and rc != 0 and "test result: FAILED" in out), "rc": rc, "output": out[-3000:], "scenario": o["scenario"]}
+                if rec["native"]["reproduced"]:
+                    suffix = ""
+                else:
+                    rec["replay_diverged"] = True
             json.dump(rec, open(rpath, "w"), indent=1)
             vio_lines.append("VIOLATION property=%s replay=%s obligation=%s %s%s" % (
                 prop, rpath, o["id"], json.dumps("; ".join(fc["msg"] for fc in r["failed_checks"][:2]))[:300], suffix))
